@@ -1,7 +1,7 @@
 (* Props/C09.v — the cache is a size- and count-bounded LRU map for every
    configuration, every history and every OnDelete callback (re-entrant calls
    from inside the callback included).  Statements only. *)
-From Verif Require Import Base.GoPrim Model.Cache Proofs.CacheProofs.
+From Verif Require Import Base.GoPrim Model.Cache Proofs.CacheProofs Model.ListHeap Gen.ListOps Proofs.ListProofs.
 
 Section C09.
   Variable cf : cconf.
@@ -114,6 +114,40 @@ Example C09_example_nolru :
   = Ret [EvSet false; EvSet false; EvSet false; EvGet (Some [1]); EvDel; EvStats 0 0 1 0].
 Proof. vm_compute. reflexivity. Qed.
 
+(* ---- the usage list (cache/list.go, REGENERATED into Gen/ListOps.v) ----
+   The ordered entry list of the model above is, in the code, an intrusive circular doubly-linked list.
+   For the functions as translated from the source: after listInit and ANY sequence of the calls the cache
+   makes -- listAppend(x, listLast(s)) of a fresh node, listUnlink(x) of a member, and the two in a row
+   (Get in LRU mode) -- the heap represents exactly the sequence obtained by append / remove /
+   move-to-end (next-chain from the sentinel through the nodes and back, prev-chain its inverse, no node
+   twice), so listFirst is the least recently used node and listLast the most recently used one. *)
+Theorem C09_usage_list : forall s os h l,
+  Rep h s l -> lops_ok s l os = true ->
+  Rep (fold_left (lop_impl s) os h) s (fold_left lop_spec os l).
+Proof. exact lops_refine. Qed.
+
+Theorem C09_usage_list_ends : forall s os h0,
+  lops_ok s [] (LInit :: os) = true ->
+  let h := fold_left (lop_impl s) (LInit :: os) h0 in
+  let l := fold_left lop_spec (LInit :: os) [] in
+  gen_listFirst h s = hd s l /\ gen_listLast h s = last l s.
+Proof. exact lops_first. Qed.
+
+Theorem C09_usage_list_ops :
+  (forall h s, Rep (gen_listInit h s) s []) /\
+  (forall h s l x, Rep h s l -> ~ In x (s :: l) -> Rep (gen_listAppend h x (gen_listLast h s)) s (l ++ [x])) /\
+  (forall h s l1 x l2, Rep h s (l1 ++ x :: l2) -> Rep (gen_listUnlink h x) s (l1 ++ l2)).
+Proof. exact (conj list_init_rep (conj list_append_rep list_unlink_rep)). Qed.
+
+(* non-vacuity: sentinel 0; append 1 2 3, touch 1, unlink 2: the sequence is [3; 1] and the heap's ends agree *)
+Example C09_usage_list_example :
+  let os := [LInit; LAppend 1%nat; LAppend 2%nat; LAppend 3%nat; LTouch 1%nat; LUnlink 2%nat] in
+  let h := fold_left (lop_impl 0%nat) os (mk_heap (fun _ => 7%nat) (fun _ => 9%nat)) in
+  lops_ok 0%nat [] os = true /\ fold_left lop_spec os [] = [3%nat; 1%nat] /\
+  gen_listFirst h 0%nat = 3%nat /\ gen_listLast h 0%nat = 1%nat /\ get_next h 3%nat = 1%nat /\
+  get_next h 1%nat = 0%nat /\ get_prev h 3%nat = 0%nat.
+Proof. vm_compute. repeat split; reflexivity. Qed.
+
 Print Assumptions C09_step_invariant.
 Print Assumptions C09_no_panic_and_bounds.
 Print Assumptions C09_stats_exact.
@@ -125,3 +159,6 @@ Print Assumptions C09_clear.
 Print Assumptions C09_evict.
 Print Assumptions C09_refuse.
 Print Assumptions C09_terminates.
+Print Assumptions C09_usage_list.
+Print Assumptions C09_usage_list_ends.
+Print Assumptions C09_usage_list_ops.
